@@ -169,7 +169,7 @@ Proof.
   inversion H; subst s3; clear H.
   apply cas_some in C3 as [_ C3]. subst s'.
   exists k, i. unfold set_st.
-  assert (Hk1 : (k < nslots (set s k {| sst := SRxBusy; skey := skey (get s k); sfr := sfr (get s k) |}))%nat)
+  assert (Hk1 : (k < nslots (set s k {| sst := SRxBusy; skey := skey (get s k); sfr := sfr (get s k); shdr := shdr (get s k) |}))%nat)
     by (rewrite nslots_set; exact Hk).
   repeat rewrite get_set_eq; try (repeat rewrite nslots_set; exact Hk).
   cbn [sst skey sfr fbuf fused].
